@@ -146,6 +146,31 @@ func validCorpus() []VFrame {
 			}
 		}
 	}
+	// valid frames no setter sequence of this library produces: a credential
+	// flag with a zero-length credential, user properties with an empty name
+	// or value, in several packet types
+	for _, c := range []struct {
+		name       string
+		user, pass bool
+	}{{"emptyuser", true, false}, {"emptypass", false, true}, {"emptyboth", true, true}} {
+		p := minimalPacket(1)
+		p.ClientID = []byte("cid")
+		p.HasUser, p.HasPass = c.user, c.pass
+		add("CONNECT."+c.name, p, spec.Form{})
+		q := richPacket(1, false)
+		q.HasUser, q.User, q.HasPass, q.Pass = c.user, nil, c.pass, nil
+		if !c.user {
+			q.HasUser, q.User = true, []byte("u")
+		}
+		add("CONNECT.rich."+c.name, q, spec.Form{})
+	}
+	for _, t := range []byte{1, 2, 3, 4, 8, 9, 14, 15} {
+		for _, kv := range [][2]string{{"", "v"}, {"", ""}, {"k", ""}} {
+			p := minimalPacket(t)
+			p.Props = append(p.Props, spec.Prop{ID: 0x26, B: []byte(kv[0]), V: []byte(kv[1])}, spec.Prop{ID: 0x26, B: []byte("k2"), V: []byte("v2")})
+			add(fmt.Sprintf("%s.userprop(%q,%q)", gen.Schemas[t].Name, kv[0], kv[1]), p, spec.Form{})
+		}
+	}
 	vCache = out
 	return out
 }
